@@ -212,7 +212,21 @@ def F20(env):
   _raises(env, 'nv=0', '<mujoco><worldbody><geom size=".1"/></worldbody></mujoco>')
 
 
-ALL = [F1, F2, F3, F4, F5, F9, F10, F11, F12, F13, F14, F15, F16, F17, F18, F19, F20]
+def F23(env):
+  mujoco, mjx, jax, jp, lib, gx = env
+  print('== F23 (minor) C skips collisions between two dof-less bodies (world geom vs mocap-body geom); MJX emits the contact')
+  xml = ('<mujoco><worldbody><geom type="plane" size="1 1 .1"/><body mocap="true" pos="0 0 0.05"><geom type="capsule" size=".06 .1" euler="90 0 0"/></body>'
+         '<body pos="1 0 1"><joint type="hinge"/><geom size=".1"/></body></worldbody></mujoco>')
+  c = gx.build(lib, xml)
+  td = lib.make_data(c.tm)
+  lib.mj_forward(c.tm, td)
+  dx = jax.jit(mjx.forward)(c.mx, c.dx0)
+  cx = dx._impl.contact
+  print('   C engine ncon=%d ; MJX active contacts=%d dist=%s' % (int(td.ncon), int(np.sum(np.asarray(cx.dist) < np.asarray(cx.includemargin))),
+                                                              np.asarray(cx.dist)))
+
+
+ALL = [F1, F2, F3, F4, F5, F9, F10, F11, F12, F13, F14, F15, F16, F17, F18, F19, F20, F23]
 
 if __name__ == '__main__':
   env = _setup()
